@@ -196,6 +196,9 @@ class Ctx:
         f = self.func(rel, qual)
         T.set_context(rel)       # restatements summarised next are read in the same context
         pe = self.pe(rel, **kw)
+        self._last_cls = qual.split('.')[0] if '.' in qual and qual.split('.')[0] in self.repo.module(rel).classes else None
+        if self._last_cls is not None and not any(isinstance(d, ast.Name) and d.id in ('staticmethod', 'classmethod') for d in f.decorator_list):
+            pe.self_class = (rel, self._last_cls)
         return pe.run_function(f, args=args, kwargs=kwargs, self_term=self_term)
 
     def fn_term(self, rel, qual, **kw):
@@ -210,6 +213,8 @@ class Ctx:
         if getattr(self, '_last_rel', None):
             pe.sig_of = self.sig_resolver(self._last_rel)      # restatements are read in the context of the function just summarised
         pe.purity = self.purity()
+        if getattr(self, '_last_rel', None) and getattr(self, '_last_cls', None) and f.args.args and f.args.args[0].arg == 'self':
+            pe.self_class = (self._last_rel, self._last_cls)       # the restatement of a method is read as a method of that class
         return pe.run_function(f, args=args, kwargs=kwargs, self_term=self_term)
 
     def spec_term(self, src, **kw):
